@@ -42,13 +42,13 @@ CHECKS.update({
     text="For each root and iteration limit the unaborted run is recorded, then the search is re-run with the allowance expiring at every (small trees) or a structured sample of clock-query indices k; each run must hand back only legal successors, report a sequence that is a prefix of the unaborted one, leave the repetition record unchanged and not panic. The schedule clause (send after the receiver is dropped) is driven on the hooked binary with delayed sends and read from its event log.",
     ref="DESIGN.md §7 C07"),
  "C08": dict(cat="exploration", tech="bounded-progress monitor over UCI sessions with terminal and non-terminal roots; hang verdict from /proc (search thread gone, no answer)",
-    text="Alternating terminal (checkmate/stalemate) and non-terminal roots under clock settings with planned slice <= 200 ms; a null move is required on terminal roots, a legal move otherwise, isready must be served afterwards. Clock settings include C03's wide grid (negative, zero, huge and out-of-range integers, unknown tokens). Liveness is restated as a bound (slice + 300 ms, solo-confirmed) and hangs are decided logically.",
+    text="Alternating terminal (checkmate/stalemate) and non-terminal roots under clock settings with planned slice <= 200 ms; a null move is required on terminal roots, a legal move otherwise, isready must be served afterwards. Clock settings include C03's wide grid (negative, zero, huge and out-of-range integers, unknown tokens; affordable lines chosen by a bound computed from the numbers written), finished games also get astronomical mover clocks, a third of the sessions switch the log file on, and a go after the engine's own game-ending move must be answered with a null move. Liveness is restated as a bound (slice + 300 ms, solo-confirmed) and hangs are decided logically.",
     ref="DESIGN.md §7 C08", note=BB_NOTE),
  "C09": dict(cat="exploration", tech="reference-policy monitor (upper bounds from the statement) on calculate_time_slice over an edge-value grid + random points; measured latency vs plan on the real binary",
     text="The real calculate_time_slice and go parser are evaluated on the full cross product of 24 edge values for clock and increment x 9 movestogo values x both colours plus ~10^6 log-uniform random points against bounds written from the statement only; the real binary's go->bestmove delay is compared with the plan (exact lower bound, solo-confirmed upper bound).",
     ref="DESIGN.md §7 C09", note=BB_NOTE),
  "C10": dict(cat="exploration", tech="reference-model monitor of the repetition record (oracle occurrence counts) + score>=0 invariant when a repetition move is available; hooked binary for the real handler incl. clear()",
-    text="Histories with 1-3 repetition sites of 1..99 cycles are loaded through the real position handler function and the record compared with oracle counts; sessions of 2-10 position commands on the hooked binary check the record after the real clear(); searches from materially lost roots with a move into a position that occurred 2,3,4,5 times must end every completed depth with a non-negative score (in-process under the virtual clock and on the real binary, there also for a second go without a new position after a forced first answer).",
+    text="Histories with 1-3 repetition sites of 1..99 cycles are loaded through the real position handler function and the record compared with oracle counts; sessions of 2-10 position commands on the hooked binary check the record after the real clear(); searches from materially lost roots with a move into a position that occurred 2,3,4,5 times must end every completed depth with a non-negative score (in-process under the virtual clock and on the real binary, there also for a second go without a new position after a forced first answer); perpetual-check roots whose third occurrence is completed inside the search line are compared with the exact reference search at depths 1-7; hooked sessions repeat position commands and send growing move lists.",
     ref="DESIGN.md §7 C10"),
  "C11": dict(cat="exploration", tech="differential monitor of mate claims and played moves against a full-width mate solver (in-process under the virtual clock, and the move played by the real binary under 1-20 ms slices)",
     text="Real searches (all iterations up to a limit complete under the virtual clock) on endgame families, cornered-king sparse-material roots and positions 1-5 plies before mate; the oracle's solver judges mate-in-1 played, avoidable mate avoided after iterations 2-3, every 'mate N' (N<=3) true, 'mate -N' true on the last line of completed depths, stalemating moves never reported as mate. Black box: the move the real binary plays under 1-20 ms slices, judged only when an info line printed before the allowance ended proves that the first (second) iteration had finished.",
@@ -60,13 +60,13 @@ CHECKS.update({
     text="get_evaluation is checked for mirror symmetry, negation under side swap, independence from every non-placement field and |eval| <= 50000 on the exhaustive single-piece basis (12 x 64 squares x 14 phase levels x 2 sides) and ~2.5*10^5 random placements with up to nine queens a side.",
     ref="DESIGN.md §7 C14"),
  "C15": dict(cat="exploration", tech="totality monitor (catch_unwind + CLI exit status) over generated, mutated, Unicode and exhaustive ep-field strings; faithfulness against the oracle's strict parser",
-    text="~4*10^5 strings per quick run through the real from_fen (no panic; well-formed legal FENs with counters up to 70000 accepted and loaded faithfully), the ep field exhaustively over all 1-3 symbol strings of a 40-symbol alphabet, and a sample through the real binary's command line (exit 0, message printed).",
+    text="~4*10^5 strings per quick run through the real from_fen (no panic; well-formed legal FENs with counters up to 70000 accepted and loaded faithfully), the ep field exhaustively over all 1-3 symbol strings of a 40-symbol alphabet, and a sample through the real binary's command line, incl. arguments that are not UTF-8 (exit 0, no panic, and the load error printed - never a perft - whenever the real from_fen rejects the same input).",
     ref="DESIGN.md §7 C15"),
  "C16": dict(cat="exploration", tech="differential monitor: probe after arbitrary session prefix vs fresh process (bestmove equality, prefix-compatible info sequences)",
     text="Probes (zero-slice and timed) issued after generated prefixes of up to 60 commands, including the probed game itself so that a leaked repetition record doubles counts, are compared with fresh-engine references.",
     ref="DESIGN.md §7 C16", note=BB_NOTE),
  "C17": dict(cat="exploration", tech="differential monitor of scripts with/without garbage lines; lifecycle checks via /proc (exit, CPU time after EOF)",
-    text="Scripts with unknown lines inserted at random points must give the same answers as without them, isready is always answered, quit and EOF end the process promptly and it does not spin (process CPU time vs wall time). Scripts switch the engine's log file on in half of the sessions, carry long multi-byte and non-UTF-8 lines, and are also written pipelined (no waiting for replies) and ended by quit or end of input.",
+    text="Scripts with unknown lines inserted at random points must give the same answers as without them, isready is always answered, quit and EOF end the process promptly and it does not spin (process CPU time vs wall time). Scripts switch the engine's log file on in half of the sessions, carry long multi-byte and non-UTF-8 lines, and are also written pipelined (no waiting for replies) and ended by quit or end of input. Unknown lines include command words with control or invisible characters inside, long lines made of command words, NUL bytes, megabyte lines; end of input also arrives in the middle of a line.",
     ref="DESIGN.md §7 C17", note=BB_NOTE),
  "C18": dict(cat="exploration", tech="trace-specification monitor (strict grammar + bounds + monotonicity) over info lines from clock-cut in-process searches and real transcripts",
     text="Every info line produced while the virtual clock cuts the search at enumerated points, and every line of timed go commands on the real binary, is parsed against the strict grammar and checked for depth monotonicity, score bounds (incl. the value implied by mate N), first-PV-move legality and strictly increasing scores within a depth.",
